@@ -391,6 +391,45 @@ pub fn shapes() -> Vec<ProgCase> {
 /// rows, chosen so that the chiplet rows (without the padding row) are exactly 2^j-2, 2^j-1, 2^j, 2^j+1
 /// for j = 6, 7, 8 while the chiplets dominate the trace length and the LAST chiplet row is a memory
 /// row (no kernel). The search runs the real VM only to read the component lengths.
+/// Large traces (2^14 .. 2^17 rows), one per dominating component and one mixing every component in non-root
+/// contexts: the families above stay below 2^13 rows. `big` adds the 2^16 / 2^17 members (thorough tiers).
+pub fn large(big: bool) -> Vec<ProgCase> {
+    let mk = |name: &str, src: String, stack: Vec<u64>, tags: Vec<&'static str>| ProgCase { name: format!("large/{name}"), src, kernel: None, stack, advice: vec![], merkle_leaves: vec![], tags };
+    let mut out = vec![];
+    let scale = |n: u64| if big { n * 4 } else { n };
+    // main-dominated: a counting loop
+    out.push(mk("main_loop", format!("begin push.{} push.1 while.true sub.1 dup neq.0 end drop end", scale(2500)), input_regime(1), vec!["stack"]));
+    // range-checker heavy: every iteration range-checks the four limbs of a different product
+    out.push(mk(
+        "range_values",
+        format!("begin push.{} push.1 while.true dup push.2654435761 mul u32split u32overflowing_mul drop drop sub.1 dup neq.0 end drop end", scale(1500)),
+        input_regime(2),
+        vec!["stack", "range"],
+    ));
+    // hasher-dominated: 8 chiplet rows per cycle
+    out.push(mk("hasher", format!("proc.h repeat.100 hperm end end begin repeat.{} exec.h end end", scale(20)), input_regime(3), vec!["stack", "hasher"]));
+    // memory heavy, in the root context and in a called context, reading back what was written
+    out.push(mk(
+        "memory",
+        format!(
+            "proc.w push.{n} push.1 while.true dup dup mem_store sub.1 dup neq.0 end drop push.{n} push.1 while.true dup mem_load drop sub.1 dup neq.0 end drop end begin exec.w call.w end",
+            n = scale(600)
+        ),
+        input_regime(1),
+        vec!["stack", "memory", "range"],
+    ));
+    // bitwise-dominated: 8 chiplet rows per cycle
+    out.push(mk("bitwise", format!("proc.b repeat.100 dup.1 dup.1 u32xor drop dup.1 dup.1 u32and drop end end begin push.4042322160 push.252645135 repeat.{} exec.b end drop drop end", scale(10)), input_regime(2), vec!["stack", "bitwise"]));
+    // deep overflow table: the stack grows by thousands of elements and shrinks again
+    out.push(mk(
+        "overflow",
+        format!("begin push.{n} push.1 while.true dup sub.1 dup neq.0 end drop push.{n} push.1 while.true swap drop sub.1 dup neq.0 end drop end", n = scale(1200)),
+        input_regime(3),
+        vec!["stack", "overflow"],
+    ));
+    out
+}
+
 pub fn regime_search() -> Vec<ProgCase> {
     let mut out = vec![];
     let mut found = std::collections::BTreeSet::new();
